@@ -1,4 +1,5 @@
 PROP = dict(
+    ready=True,
     coq=["theories/Properties/C13.v"],
     suites=[dict(bin="obs-logcodec")],
     trusted=[
